@@ -57,6 +57,17 @@ def points(rec):
             dec = np.clip(dec, -90, 90)
     else:
         raise ValueError(k)
+    if rec.get("anti") and n > 1:
+        # the second half of the set sits at (or within a few micro-degrees of) the ANTIPODES of the first half: pairs
+        # at separations 180 - 0 .. 5e-6 deg, for radii just below 180
+        h = n // 2
+        src = np.arange(n - h) % max(1, h)
+        ra2 = np.mod(ra[src] + 180.0, 360.0)
+        dec2 = -dec[src]
+        rho = np.where(g.random(n - h) < 0.3, 0.0, g.uniform(0.0, 5e-6, n - h))
+        ra2, dec2 = offset(ra2, dec2, rho, g.uniform(0, 2 * np.pi, n - h))
+        ra = np.concatenate([ra[:h], ra2])
+        dec = np.concatenate([dec[:h], dec2])
     tw = rec.get("twin")
     if tw and n > 1:
         # the second half of the set are partners of the first half at about the separation `tw` (0.3 .. 1.3 of it,
@@ -99,7 +110,7 @@ def offset(ra0, dec0, rho_deg, psi):
 
 
 def draw_set(r, n_max, region=None):
-    n = wpick(r, [(1, 1), (r.randrange(2, 12), 4), (r.randrange(12, n_max + 1), 3)])
+    n = wpick(r, [(1, 1), (r.randrange(2, 12), 4), (r.randrange(12, n_max + 1), 3), (0, 0.25)])    # rarely an EMPTY set
     kind = wpick(r, [("uniform", 2), ("cap", 5), ("pole", 2), ("seam", 2), ("edge", 2)])
     rec = {"kind": kind, "n": n, "seed": r.randrange(1 << 30), "dups": chance(r, 0.3)}
     if region is not None and chance(r, 0.8):
@@ -165,7 +176,7 @@ def plan(S, prop, mode, tier, avoid):
             elif rk == "big":
                 rad = round(r.uniform(20, 179), 2)
             else:
-                rad = pick(r, [180.0, 90.0, 179.999])
+                rad = pick(r, [180.0, 90.0, 179.999, 179.999999, 179.9999999])
             rad = min(rad, 180.0)
             if 0.0 < rad < 1e-6:
                 rad = 1e-6              # the quantifier: radii 0 and 1e-6 .. 180 degrees
@@ -208,6 +219,8 @@ def plan(S, prop, mode, tier, avoid):
                      "path": pick(r, ["c%d_o.txt" % c, "c%d_p0.txt" % c, "c%d_p1.txt" % c]),
                      "newbuf": chance(r, 0.15), "c": c}
                 ops.insert(r.randrange(1, len(ops) + 1), o)
+        if max(radii) > 179.9 and chance(r, 0.7):
+            base["anti"] = True
         if chance(r, 0.35):
             # partners at about one of the search radii used on this matcher
             tw = pick(r, [x for x in radii if x > 0] or [scale * 0.01])
